@@ -32,6 +32,7 @@ import (
 // innermost indexsupply/shovel frames of the two conflicting accesses.
 
 type job struct {
+	Faults   bool   `json:"faults,omitempty"` // scenario a with one injected JSON-RPC fault (error paths of a partitioned load)
 	Scenario string `json:"scenario"` // a: one task, partitions; b: two tasks one client; c: b + head poller ticks; d: b + growth + reorg; e: phased poller announcements around cached-head reads
 	Shapes   string `json:"shapes"`   // e.g. "L1" or "L1+T1"
 	Batch    int    `json:"batch"`
@@ -51,7 +52,7 @@ func init() {
 		ID:        "C18",
 		Level:     "model_checking",
 		Technique: "stateless model checking under the Go race detector: every schedule of the real pipeline enumerated by the controlled scheduler (hand-offs invisible to the detector, modelled primitives annotated with the real happens-before edges) is judged by the detector's happens-before analysis",
-		Rule: "scenarios: (a) one task with concurrency 2..4 (partitioned load), (b) two tasks sharing one source client and its caches with equal and different data plans (headers+logs, blocks, blocks+receipts, blocks+traces) over the same range, (c) = (b) plus the background head poller receiving ticks, (d) = (b) plus head growth and a reorg in flight, (e) = (b) with the head poller announcing one head before and a grown head after the steps that read the cached head; " +
+		Rule: "scenarios: (a) one task with concurrency 2..4 (partitioned load), (b) two tasks sharing one source client and its caches with equal and different data plans (headers+logs, blocks, blocks+receipts, blocks+traces) over the same range, (c) = (b) plus the background head poller receiving ticks, (d) = (b) plus head growth and a reorg in flight, (a+faults) = (a) with an error reply injected at any one JSON-RPC exchange (error paths of a partitioned load next to succeeding siblings), (e) = (b) with the head poller announcing one head before and a grown head after the steps that read the cached head; " +
 			"per scenario every schedule with <= 1 preemption and <= 1 partition reordering (thorough: 2). An execution is non-trivial when at least two controlled threads of the code under test ran; distinct = distinct (job, choice sequence).",
 		Assumptions: []string{
 			"the Go race detector (ThreadSanitizer) decides each explored schedule; its report de-duplication means a racing pair is reported once per process, so violations are identified by the pair of source locations, not counted per schedule",
@@ -130,13 +131,17 @@ func jobs(thorough bool) []job {
 			job{Scenario: "b", Shapes: "L1+L1", Batch: 2, Conc: 1}, job{Scenario: "b", Shapes: "R1+TR1", Batch: 4, Conc: 2},
 			job{Scenario: "c", Shapes: "L1+T1", Batch: 2, Conc: 1},
 			job{Scenario: "d", Shapes: "L1+T1", Batch: 2, Conc: 1},
-			job{Scenario: "e", Shapes: "L1", Batch: 2, Conc: 1})
+			job{Scenario: "e", Shapes: "L1", Batch: 2, Conc: 1},
+			job{Scenario: "a", Shapes: "L1", Batch: 4, Conc: 2, Faults: true}, job{Scenario: "a", Shapes: "T1", Batch: 4, Conc: 2, Faults: true})
 		return js
 	}
 	for _, sh := range []string{"L1", "T1", "R1", "TR1"} {
 		for _, cc := range []int{2, 3, 4} {
 			js = append(js, job{Scenario: "a", Shapes: sh, Batch: 4, Conc: cc, Total: 2})
 		}
+	}
+	for _, sh := range []string{"L1", "T1", "R1", "TR1"} {
+		js = append(js, job{Scenario: "a", Shapes: sh, Batch: 4, Conc: 2, Faults: true, Total: 2}, job{Scenario: "a", Shapes: sh, Batch: 4, Conc: 4, Faults: true})
 	}
 	pairs := []string{"L1+L1", "L1+T1", "T1+R1", "L1+TR1", "T1+T1", "R1+TR1", "L1+R1"}
 	for _, sc := range []string{"b", "c", "d", "e"} {
@@ -229,6 +234,9 @@ func body(w *world.W, j job, p *prep) {
 	if err != nil {
 		w.HarnessErr = "loadTasks: " + err.Error()
 		return
+	}
+	if j.Faults {
+		w.RPCFaultKinds = 1 // after start-up: an error reply at any one JSON-RPC exchange of the steps
 	}
 	var ts []*vrt.Thread
 	if j.Scenario == "e" {
@@ -417,6 +425,9 @@ func bounds(j job) explore.Bounds {
 		n = 1
 	}
 	b[0], b[vrt.KPreempt], b[vrt.KOrder] = n, n, n
+	if j.Faults {
+		b[vrt.KFault] = 1 // one failing exchange, with or (Total 2) without a further deviation
+	}
 	return b
 }
 
